@@ -31,9 +31,12 @@ def main():
         return 2
     subprocess.run(['git', '-C', '/repo', 'apply', patch], check=True)
     results = []
+    import shutil, tempfile
+    scratch = tempfile.mkdtemp(prefix='vkopf-seeded-')
     try:
         for p in props:
             env = dict(os.environ)
+            env['VKOPF_EVIDENCE_DIR'] = scratch      # never overwrite the evidence of the unchanged tree
             if a.scale:
                 env['VKOPF_TIMEOUT_SCALE'] = a.scale
             cmd = [os.path.join(ROOT, 'vcheck'), 'run', p, '--tier', a.tier] + (['--only'] + a.only if a.only else [])
@@ -46,6 +49,7 @@ def main():
             print(p, 'exit', r.returncode, '|', ' ; '.join(lines[:4])[:400], '|', ' ; '.join(errs[:2])[:300])
     finally:
         subprocess.run(['git', '-C', '/repo', 'checkout', '--', '.'], check=True)
+        shutil.rmtree(scratch, ignore_errors=True)
     runs_path = os.path.join(d, 'runs.json')
     runs = json.load(open(runs_path)) if os.path.exists(runs_path) else []
     runs.append({'at': time.strftime('%Y-%m-%dT%H:%M:%SZ', time.gmtime()), 'results': results})
